@@ -197,7 +197,7 @@ def _gen_ops(rng, n_ops, n_prim, world_has_nac, fault_mode, tier):
         elif kind == "switch":
             st, other = other, st
         elif kind == "invalid":
-            op.update(which=rng.choice(["fc_wrong_shape", "symmetrize_without_fc", "displacements_on_type1", "dataset_bad_format"] + (["nac_wrong_count"] * 2 if world_has_nac else [])))
+            op.update(which=rng.choice(["fc_wrong_shape", "symmetrize_without_fc", "displacements_on_type1", "dataset_bad_format", "dataset_wrong_shape"] + (["nac_wrong_count"] * 2 if world_has_nac else [])))
             if op["which"] == "nac_wrong_count" and i + 2 < n_ops and seq[i + 1] is None and seq[i + 2] is None:
                 seq[i + 1], seq[i + 2] = "set_nac", "query"  # a refused assignment must not spoil the next valid one
         elif kind == "query":
@@ -233,7 +233,8 @@ def gen_spec(seed, index, tier):
     if fault_mode and tier == "thorough" and rng.random() < 0.3:
         ops.insert(rng.randint(1, len(ops) - 1), {"op": "build_swap"})
     init = dict(is_symmetry=rng.random() < 0.85, store_dense_svecs=rng.random() < 0.7, log_level=rng.choice([0, 0, 1, 2]),
-                factor=rng.choice([None, None, 521.47083, 108.97077]))  # constructor-level settings a copy must carry too
+                factor=rng.choice([None, None, 521.47083, 108.97077]),  # constructor-level settings a copy must carry too
+                frequency_scale_factor=rng.choice([None, None, None, 1.1]))  # (deprecated, still reachable: FREQUENCY_SCALE_FACTOR)
     return dict(seed=seed, world=w.spec, variant=variant, schedule=sched, init=init, ops=ops, fault_mode=fault_mode)
 
 
@@ -323,7 +324,10 @@ def _get(ph, getter):
 
 
 def _factor_kw(init):
-    return {} if init.get("factor") is None else {"factor": init["factor"]}
+    kw = {} if init.get("factor") is None else {"factor": init["factor"]}
+    if init.get("frequency_scale_factor") is not None:
+        kw["frequency_scale_factor"] = init["frequency_scale_factor"]
+    return kw
 
 
 class Target:
@@ -427,6 +431,7 @@ def run_query(ph, q, has_fc, n_super):
             out["none"] = np.zeros(1)
         else:
             out["pos"] = np.array([c.positions for c in cells if c is not None]) if len(cells) else np.zeros(1)
+            out["cell_masses"] = np.array([c.masses for c in cells if c is not None]) if len(cells) else np.zeros(1)
     return kind, out
 
 
@@ -751,6 +756,8 @@ def execute(spec):
                                 raise RuntimeError("n/a")
                         elif op["which"] == "dataset_bad_format":
                             ph.dataset = {"foo": 1}
+                        elif op["which"] == "dataset_wrong_shape":
+                            ph.dataset = {"displacements": np.zeros((2, len(ph.supercell) + 1, 3))}
                         elif op["which"] == "nac_wrong_count":
                             if nac_model is None or ph.force_constants is None:
                                 raise RuntimeError("n/a")
